@@ -1157,6 +1157,11 @@ class Interp:
                 return obj.shape
         if isinstance(obj, (int, z3.ArithRef, z3.BoolRef)) and name == "dtype":
             return Opaque("dtype")
+        if isinstance(obj, (int, z3.ArithRef)) and name == "astype":
+            class _Id:
+                def sym_call(self_, ip, args, kwargs, lineno):
+                    return obj
+            return _Id()
         raise Unsupported("attribute %s of %r" % (name, obj))
 
     def owner_of(self, cls, name):
